@@ -764,6 +764,10 @@ func (x *Exec) flatten(v Value, terms *[]string, sorts *[]string) {
 		for _, f := range s.Fields {
 			x.flatten(f, terms, sorts)
 		}
+	case ArrayV:
+		for _, f := range s.Elems {
+			x.flatten(f, terms, sorts)
+		}
 	case GhostArr:
 		*terms = append(*terms, s.T)
 		*sorts = append(*sorts, s.Sort)
